@@ -23,6 +23,7 @@ import (
 //	               identity generation / start / increment modified
 //	enums          PostgreSQL: enum value added (ModifyObject), new enum + column using it, enum
 //	               dropped with its column — objects and tables in one top-level list (SortChanges)
+//	tmp-name       SQLite: rebuild of <t> (and of new_<t>) while a table named new_<t> exists
 //	alter-path     SQLite: only add column / add index / drop index (ALTER path instead of rebuild)
 //
 // All of them go through the repetition, process and same-objects legs like every other input.
@@ -191,6 +192,21 @@ func shapeInputs(d dmodel.Dialect) []*Input {
 		u.Indexes = append(u.Indexes, dmodel.Idx("i_age", dmodel.P("age")), dmodel.Idx("i_note", dmodel.P("email"), dmodel.PD("id")))
 		u.Columns = append(u.Columns, dmodel.Col("note", ty.Text(), dmodel.Nullable()), dmodel.Col("lvl", ty.Int(), dmodel.Def("3")))
 		out = append(out, &Input{Name: string(d) + "/shape-alter-path", Dialect: d, From: model("shape", users(), orgs()), To: model("shape", u, orgs())})
+	}
+	// ---- tmp-name (SQLite): a table that must be REBUILT (copy through a temporary table new_<t>) in
+	// a schema that already holds a table literally named new_<t>
+	if lite {
+		nu := func() *dmodel.Table {
+			return &dmodel.Table{Name: "new_users", PK: &dmodel.PrimaryKey{Cols: []string{"id"}},
+				Columns: []*dmodel.Column{dmodel.Col("id", ty.BigInt()), dmodel.Col("v", ty.Int(), dmodel.Nullable())}}
+		}
+		u := users()
+		dropCol(u, "nick")
+		dropIdx(u, "i_nick", "i_nick_age")
+		u.Columns[2].Null = false // age: null -> not null
+		n2 := nu()
+		n2.Columns[1].Null = false
+		add("tmp-name", model("shape", users(), orgs(), nu()), model("shape", u, orgs(), n2))
 	}
 	return out
 }
